@@ -10,7 +10,9 @@
    boundary displacements nd*nf];  ustate I theta = the samples of u = A x + b with
    theta = [A row-major; b] at cell centres and boundary face centres (0 on interior
    faces);  basis I m = the samples of the basis fields e_k x_l (m = k*nd + l) and e_k
-   (m = nd*nd + k);  div_target I c m = alpha * delta_kl * |K_c| resp. 0. *)
+   (m = nd*nd + k);  al I k l = entry (k,l) of the symmetric coupling tensor alpha (a scalar
+   coefficient a is a*I: scalar_alpha I a);  div_target I c m = alpha_kl * |K_c| resp. 0;
+   grad_target I q = -(alpha n_f)_k. *)
 From Coq Require Import List ZArith QArith Qabs Bool Arith Lia.
 Import ListNotations.
 From PP Require Import Lib.RowLin Model.C15 Proofs.C15.
@@ -77,16 +79,16 @@ Proof. split; [exact ustate_is_linear_field_2d | exact ustate_is_linear_field_3d
 Print Assumptions C15_ustate_is_linear_field.
 
 (* Basis-field certificates + linearity: if the row of cell c of
-   [displacement_divergence | boundary_displacement_divergence] returns
-   alpha * delta_kl * |K_c| on e_k x_l and 0 on e_k, it returns alpha * tr(A) * |K_c| on
-   EVERY linear field. *)
+   [displacement_divergence | boundary_displacement_divergence] returns alpha_kl * |K_c| on
+   e_k x_l and 0 on e_k, it returns (alpha : A) * |K_c| = sum_kl alpha_kl A_kl |K_c| on EVERY
+   linear field u = A x + b (tensor coupling coefficient) ... *)
 Theorem C15_linear_fields_2d :
   forall (I : inst) (c : nat) (a00 a01 a10 a11 b0 b1 : Q),
     i_nd I = 2%nat ->
     (forall m, (m < nparam I)%nat ->
        rdot (nth c (i_drows I) []) (basis I m) == div_target I c m) ->
     rdot (nth c (i_drows I) []) (ustate I [a00; a01; a10; a11; b0; b1])
-    == i_alpha I * (a00 + a11) * nth c (i_vols I) 0.
+    == (al I 0 0 * a00 + al I 0 1 * a01 + al I 1 0 * a10 + al I 1 1 * a11) * nth c (i_vols I) 0.
 Proof. exact linear_fields_2d. Qed.
 Print Assumptions C15_linear_fields_2d.
 
@@ -96,15 +98,35 @@ Theorem C15_linear_fields_3d :
     (forall m, (m < nparam I)%nat ->
        rdot (nth c (i_drows I) []) (basis I m) == div_target I c m) ->
     rdot (nth c (i_drows I) []) (ustate I [a00; a01; a02; a10; a11; a12; a20; a21; a22; b0; b1; b2])
-    == i_alpha I * (a00 + a11 + a22) * nth c (i_vols I) 0.
+    == (al I 0 0 * a00 + al I 0 1 * a01 + al I 0 2 * a02
+        + al I 1 0 * a10 + al I 1 1 * a11 + al I 1 2 * a12
+        + al I 2 0 * a20 + al I 2 1 * a21 + al I 2 2 * a22) * nth c (i_vols I) 0.
 Proof. exact linear_fields_3d. Qed.
 Print Assumptions C15_linear_fields_3d.
 
-(* Constant pressure: a scalar-gradient row whose entries sum to -alpha * n gives
-   -alpha * p * n for every p. *)
+(* ... and alpha * tr(A) * |K_c| = alpha * div(u) * |K_c| for a scalar coefficient. *)
+Theorem C15_linear_fields_scalar :
+  (forall (I : inst) (c : nat) (a a00 a01 a10 a11 b0 b1 : Q),
+    i_nd I = 2%nat -> scalar_alpha I a ->
+    (forall m, (m < nparam I)%nat ->
+       rdot (nth c (i_drows I) []) (basis I m) == div_target I c m) ->
+    rdot (nth c (i_drows I) []) (ustate I [a00; a01; a10; a11; b0; b1])
+    == a * (a00 + a11) * nth c (i_vols I) 0)
+  /\
+  (forall (I : inst) (c : nat) (a a00 a01 a02 a10 a11 a12 a20 a21 a22 b0 b1 b2 : Q),
+    i_nd I = 3%nat -> scalar_alpha I a ->
+    (forall m, (m < nparam I)%nat ->
+       rdot (nth c (i_drows I) []) (basis I m) == div_target I c m) ->
+    rdot (nth c (i_drows I) []) (ustate I [a00; a01; a02; a10; a11; a12; a20; a21; a22; b0; b1; b2])
+    == a * (a00 + a11 + a22) * nth c (i_vols I) 0).
+Proof. split; [exact linear_fields_2d_scalar | exact linear_fields_3d_scalar]. Qed.
+Print Assumptions C15_linear_fields_scalar.
+
+(* Constant pressure: a scalar-gradient row whose entries sum to -(alpha n_f)_k gives
+   -p (alpha n_f)_k for every p (for a scalar coefficient: -alpha p n_fk). *)
 Theorem C15_grad_p :
-  forall (r : row) (p alpha n : Q),
-    rdot r ones == - alpha * n -> rdot r (fun _ => p) == - alpha * p * n.
+  forall (r : row) (p an : Q),
+    rdot r ones == - an -> rdot r (fun _ => p) == - (p * an).
 Proof. exact grad_p. Qed.
 Print Assumptions C15_grad_p.
 
@@ -125,6 +147,27 @@ Theorem C15_certificate_sound :
 Proof. exact certificate_sound. Qed.
 Print Assumptions C15_certificate_sound.
 
+(* The divergence-theorem form on the cells of an instance, UNDER THE GUARD i_planar I = true
+   (all faces planar).  check evaluates the geometric identities sum_f s n_f = 0 and
+   sum_f s x_f n_f^T = |K| I only on such instances; they are NOT expected of porepy's face
+   centres / normals on grids with non-planar faces (3-D hexahedra with moved corners), see
+   C15_nonplanar_example.  On a planar instance that passed check, for every cell c and every
+   linear field the face sum  sum_f s u(x_f).n_f  over the real geometry is within the stated
+   bound of tr(A) |K_c|. *)
+Theorem C15_div_u_on_planar_instance :
+  (forall (tol : Q) (I : inst) (c : nat) (A : m3) (b : v3),
+    check tol I = true -> i_planar I = true -> i_nd I = 3%nat -> (c < i_nc I)%nat ->
+    Qabs (face_div (cell_faces_of I c) A b - trace A * nth c (i_vols I) 0)
+    <= tsum 0 (map Qabs (theta3 A b)) (geo_eps3 tol I c))
+  /\
+  (forall (tol : Q) (I : inst) (c : nat) (a00 a01 a10 a11 b0 b1 : Q),
+    check tol I = true -> i_planar I = true -> i_nd I = 2%nat -> (c < i_nc I)%nat ->
+    Qabs (face_div (cell_faces_of I c) ((a00, a01, 0), (a10, a11, 0), (0, 0, 0)) (b0, b1, 0)
+          - (a00 + a11) * nth c (i_vols I) 0)
+    <= tsum 0 (map Qabs [a00; a01; a10; a11; b0; b1]) (geo_eps2 tol I c)).
+Proof. split; [exact div_u_on_instance_3d | exact div_u_on_instance_2d]. Qed.
+Print Assumptions C15_div_u_on_planar_instance.
+
 (* With tolerance 0 the checkers give the exact hypotheses of C15_linear_fields / C15_grad_p. *)
 Theorem C15_exact_certificates :
   forall I : inst,
@@ -136,28 +179,46 @@ Theorem C15_exact_certificates :
 Proof. exact exact_certificates. Qed.
 Print Assumptions C15_exact_certificates.
 
-(* Non-vacuity: the real Biot matrices of CartGrid([2,1]) (alpha = 1/2) satisfy every
+(* Non-vacuity: the real Biot matrices of CartGrid([2,1]) (scalar coefficient 1/2) satisfy every
    certificate exactly; for u = (x + 2y + 1, 3x + 4y - 1) the divergence rows give
-   alpha * tr(A) * |K| = 1/2 * 5 * 1 in both cells, and the scalar-gradient row of face 1
-   (normal (1,0)), x-component, gives -alpha * p * n = -3/2 for p = 3. *)
+   alpha * tr(A) * |K| = 1/2 * 5 * 1 in both cells, the scalar-gradient row of face 1
+   (normal (1,0)), x-component, gives -alpha * p * n = -3/2 for p = 3, and the instance is planar,
+   so the face sums of its cells are exactly tr(A)|K| (bound 0 at tolerance 0). *)
 Example C15_nonvacuous :
-  check 0 ex_inst = true /\
+  check 0 ex_inst = true /\ scalar_alpha ex_inst (1 # 2) /\ i_planar ex_inst = true /\
   rdot (nth 0 (i_drows ex_inst) []) (ustate ex_inst [1; 2; 3; 4; 1; -(1)]) == 5 # 2 /\
   rdot (nth 1 (i_drows ex_inst) []) (ustate ex_inst [1; 2; 3; 4; 1; -(1)]) == 5 # 2 /\
-  rdot (nth 2 (i_grows ex_inst) []) (fun _ => 3) == -(3 # 2).
+  rdot (nth 2 (i_grows ex_inst) []) (fun _ => 3) == -(3 # 2) /\
+  face_div (cell_faces_of ex_inst 1) ((1, 2, 0), (3, 4, 0), (0, 0, 0)) (1, -(1), 0) == 5.
 Proof.
   split; [exact ex_inst_check|].
+  assert (Hs : scalar_alpha ex_inst (1 # 2)).
+  { intros k l Hk Hl. change (i_nd ex_inst) with 2%nat in Hk, Hl.
+    destruct k as [|[|k]]; destruct l as [|[|l]]; try lia; vm_compute; reflexivity. }
+  split; [exact Hs|]. split; [reflexivity|].
   assert (Hd : div_ok 0 ex_inst = true) by (vm_compute; reflexivity).
   assert (Hg : grad_ok 0 ex_inst = true) by (vm_compute; reflexivity).
   destruct (exact_certificates ex_inst Hd Hg) as [H1 H2].
-  split; [|split].
-  - rewrite (linear_fields_2d ex_inst 0 1 2 3 4 1 (-(1)) eq_refl (fun m Hm => H1 0%nat m ltac:(cbn; lia) Hm)).
+  split; [|split; [|split]].
+  - rewrite (linear_fields_2d_scalar ex_inst 0 (1 # 2) 1 2 3 4 1 (-(1)) eq_refl Hs
+               (fun m Hm => H1 0%nat m ltac:(cbn; lia) Hm)).
     vm_compute. reflexivity.
-  - rewrite (linear_fields_2d ex_inst 1 1 2 3 4 1 (-(1)) eq_refl (fun m Hm => H1 1%nat m ltac:(cbn; lia) Hm)).
+  - rewrite (linear_fields_2d_scalar ex_inst 1 (1 # 2) 1 2 3 4 1 (-(1)) eq_refl Hs
+               (fun m Hm => H1 1%nat m ltac:(cbn; lia) Hm)).
     vm_compute. reflexivity.
-  - rewrite (grad_p _ 3 (1 # 2) 1); [vm_compute; reflexivity|].
+  - rewrite (grad_p _ 3 (1 # 2)); [vm_compute; reflexivity|].
     rewrite (H2 2%nat) by (cbn; lia). vm_compute. reflexivity.
+  - vm_compute. reflexivity.
 Qed.
+
+(* The guard is not idle: a single hexahedron with moved corners (non-planar faces), real
+   pp.Biot matrices and real geometry arrays.  The Biot certificates hold (check accepts with
+   tolerance 1e-9, the geometric identities being skipped because i_planar = false), while the
+   first-moment identity is violated at the 1e-3 level. *)
+Example C15_nonplanar_example :
+  i_planar ex_nonplanar = false /\ check (1 # 1000000000) ex_nonplanar = true /\
+  geo_ok (1 # 1000) ex_nonplanar = false.
+Proof. repeat split; vm_compute; reflexivity. Qed.
 
 (* Non-vacuity of the divergence-theorem form: the unit square. *)
 Example C15_nonvacuous_div_u :
